@@ -27,6 +27,7 @@ import QV.Lemmas.Prob
 import QV.Lemmas.Gibbs
 
 namespace QV.Props
+namespace C05
 open QV Finset Prog Matrix
 
 variable {n h a : ℕ}
@@ -471,4 +472,5 @@ example : (Prog.flipVec 2 (fun _ => (5 : ℕ))).run [true] = none := rfl
 /-- the hypotheses of `C05_overwrite` are satisfiable: caller tensor with id 1, fresh ids from 2 -/
 example : (1 : ℕ) < 2 := by decide
 
+end C05
 end QV.Props
